@@ -6,7 +6,7 @@ N == Len(Rec)
 VARIABLES l, kf, devs
 vars == <<loaderVars, l, kf, devs>>
 Max2(a, b) == IF a > b THEN a ELSE b
-Track == TLCSet(1, Max2(TLCGet(1), l))
+Track == TLCSet(1, Max2(TLCGet(1), l)) /\ (l = N + 1 => TLCSet("exit", TRUE))
 R == Rec[l]
 Is(k) == l <= N /\ R.k = k
 Next1 == l' = l + 1
